@@ -56,6 +56,15 @@ def main():
         sh("git checkout -- .", cwd=wt)
     d = os.path.join(ROOT, "seeded", "benign", bid)
     os.makedirs(d, exist_ok=True)
+    prev = os.path.join(d, "meta.json")
+    if os.path.exists(prev) and "--merge" in sys.argv:
+        # a later run of some of the checks (after the checks changed): newer results replace older ones per check
+        old = json.load(open(prev))
+        merged = dict(old.get("checks_with_change", {}))
+        merged.update(meta["checks_with_change"])
+        meta["checks_with_change"] = merged
+        meta["properties"] = sorted(set(old.get("properties", [])) | set(props))
+        meta["alarms"] = [p for p, r in merged.items() if r["exit"] != 0]
     shutil.copy(diff, os.path.join(d, "patch.diff"))
     notes = os.path.join(os.path.dirname(diff), "notes.md")
     if os.path.exists(notes):
